@@ -95,16 +95,49 @@ fn sym_leaf3() -> Value<'static> {
     }
 }
 
-/// pairwise laws over every pair of numeric leaves (81 variant pairs, all payloads)
-#[kani::proof]
-#[kani::unwind(10)]
-#[kani::stub(alloc::fmt::format, no_format)]
-fn c08_pair_laws() {
-    let a = sym_leaf(true);
-    let b = sym_leaf(true);
-    laws(&a, &b, &b);
-    core::mem::forget((a, b));
+/// laws over three values of one fixed variant (all payloads); one harness per variant
+macro_rules! same_variant_laws {
+    ($h:ident, $var:ident) => {
+        #[kani::proof]
+        #[kani::unwind(10)]
+        #[kani::stub(alloc::fmt::format, no_format)]
+        fn $h() {
+            let a = Value::$var(kani::any());
+            let b = Value::$var(kani::any());
+            let c = Value::$var(kani::any());
+            laws(&a, &b, &c);
+            core::mem::forget((a, b, c));
+        }
+    };
 }
+same_variant_laws!(c08_laws_y, U8);
+same_variant_laws!(c08_laws_b, Bool);
+same_variant_laws!(c08_laws_n, I16);
+same_variant_laws!(c08_laws_q, U16);
+same_variant_laws!(c08_laws_i, I32);
+same_variant_laws!(c08_laws_u, U32);
+same_variant_laws!(c08_laws_x, I64);
+same_variant_laws!(c08_laws_t, U64);
+
+/// laws across two fixed, different variants
+macro_rules! cross_variant_laws {
+    ($h:ident, $v1:ident, $v2:ident) => {
+        #[kani::proof]
+        #[kani::unwind(10)]
+        #[kani::stub(alloc::fmt::format, no_format)]
+        fn $h() {
+            let a = Value::$v1(kani::any());
+            let b = Value::$v2(kani::any());
+            let c = Value::$v1(kani::any());
+            laws(&a, &b, &c);
+            laws(&b, &a, &c);
+            core::mem::forget((a, b, c));
+        }
+    };
+}
+cross_variant_laws!(c08_laws_y_x, U8, I64);
+cross_variant_laws!(c08_laws_d_t, F64, U64);
+cross_variant_laws!(c08_laws_u_d, U32, F64);
 
 /// triple laws (transitivity) over three floats, NaN and signed zeros included
 #[kani::proof]
@@ -114,18 +147,6 @@ fn c08_f64_triple_laws() {
     let a = Value::F64(kani::any());
     let b = Value::F64(kani::any());
     let c = Value::F64(kani::any());
-    laws(&a, &b, &c);
-    core::mem::forget((a, b, c));
-}
-
-/// triple laws across variants (u8 / i64 / f64 in any combination)
-#[kani::proof]
-#[kani::unwind(10)]
-#[kani::stub(alloc::fmt::format, no_format)]
-fn c08_mixed_triple_laws() {
-    let a = sym_leaf3();
-    let b = sym_leaf3();
-    let c = sym_leaf3();
     laws(&a, &b, &c);
     core::mem::forget((a, b, c));
 }
